@@ -92,7 +92,90 @@ Proof. induction l; simpl; auto. Qed.
 Lemma posts_PostInit {A} (f : A -> nat) (g : A -> list str) l : posts (map (fun x => PostInit (f x) (g x)) l) = map f l.
 Proof. induction l; simpl; congruence. Qed.
 
+(* ---- running the calls (replay) ------------------------------------------------------ *)
+Lemma replay_app a : forall b m,
+  replay (a ++ b) m = (fst (replay b (fst (replay a m))), snd (replay a m) ++ snd (replay b (fst (replay a m)))).
+Proof.
+  induction a as [|e a IH]; intros b m; simpl.
+  - destruct (replay b m); reflexivity.
+  - destruct e; simpl; try apply IH; rewrite IH; destruct (replay a m) as [m1 l1]; simpl;
+      destruct (replay b m1); reflexivity.
+Qed.
+
+Lemma replay_execs g : forall m, replay (map EExec g) m = (m, map Execute g).
+Proof. induction g as [|x g IH]; intros m; simpl; auto. rewrite IH. reflexivity. Qed.
+
+Lemma set_attr_fresh a k v : ~ In k (map fst a) -> set_attr a k v = a ++ [(k, v)].
+Proof.
+  induction a as [|[k' v'] a IH]; simpl; intros H; auto.
+  destruct (str_eqb k k') eqn:E.
+  - apply str_eqb_eq in E. subst. exfalso. apply H. left; auto.
+  - f_equal. apply IH. intros G. apply H. right; auto.
+Qed.
+
+Lemma mem_get_set_same m n k v : mem_get (mem_set m n k v) n = set_attr (mem_get m n) k v.
+Proof.
+  induction m as [|[n' a] m IH]; simpl.
+  - rewrite Nat.eqb_refl. reflexivity.
+  - destruct (Nat.eqb n n') eqn:E; simpl; rewrite E; auto.
+Qed.
+
+Lemma mem_get_set_other m n k v n' : n' <> n -> mem_get (mem_set m n k v) n' = mem_get m n'.
+Proof.
+  induction m as [|[n0 a] m IH]; simpl; intros H.
+  - destruct (Nat.eqb n' n) eqn:E; auto. apply Nat.eqb_eq in E. congruence.
+  - destruct (Nat.eqb n n0) eqn:E; simpl.
+    + apply Nat.eqb_eq in E. subst. destruct (Nat.eqb n' n0) eqn:E2; auto.
+      apply Nat.eqb_eq in E2. congruence.
+    + destruct (Nat.eqb n' n0); auto.
+Qed.
+
+(* the attribute copy of postprocess *)
+Definition apply_sets (n : nat) (fs : list (str * value)) (m : mem) : mem :=
+  fold_left (fun m kv => mem_set m n (fst kv) (image (snd kv))) fs m.
+
+Lemma replay_sets n fs : forall m,
+  replay (map (fun kv => ESet n (fst kv) (image (snd kv))) fs) m = (apply_sets n fs m, []).
+Proof. induction fs as [|kv fs IH]; intros m; simpl; auto. Qed.
+
+Lemma apply_sets_other n fs n' : n' <> n -> forall m, mem_get (apply_sets n fs m) n' = mem_get m n'.
+Proof.
+  intros H. unfold apply_sets. induction fs as [|kv fs IH]; intros m; simpl; auto.
+  rewrite IH. apply mem_get_set_other; auto.
+Qed.
+
+Lemma apply_sets_same n fs : forall m, NoDup (map fst fs) ->
+  (forall k, In k (map fst fs) -> ~ In k (map fst (mem_get m n))) ->
+  mem_get (apply_sets n fs m) n = mem_get m n ++ map (fun kv => (fst kv, image (snd kv))) fs.
+Proof.
+  unfold apply_sets. induction fs as [|[k v] fs IH]; simpl; intros m N D.
+  - rewrite List.app_nil_r. reflexivity.
+  - inversion N; subst.
+    assert (Fr : ~ In k (map fst (mem_get m n))) by (apply D; left; auto).
+    rewrite IH; auto.
+    + rewrite mem_get_set_same, set_attr_fresh by exact Fr. simpl. rewrite <- List.app_assoc. reflexivity.
+    + intros k' Hk'. rewrite mem_get_set_same, set_attr_fresh by exact Fr.
+      rewrite map_app, in_app_iff. simpl. intros [G|[G|[]]].
+      * apply (D k'); auto.
+      * subst. contradiction.
+Qed.
+
+Lemma flat_map_fst {A B C} (f : A -> list C) (l : list (A * B)) :
+  flat_map (fun x => f (fst x)) l = flat_map f (map fst l).
+Proof. induction l; simpl; congruence. Qed.
+
 (* ---- instance() --------------------------------------------------------------------- *)
+(* parameter names of every configuration are pairwise distinct (.values is a dict) *)
+Definition fields_nodup (h : heap) : Prop :=
+  forall n nd, nth_error h n = Some nd -> NoDup (map fst (fields nd)).
+
+Lemma node_at_nodup h : fields_nodup h -> forall n, NoDup (map fst (fields (node_at h n))).
+Proof.
+  intros F n. unfold node_at. destruct (nth_error h n) as [nd|] eqn:E.
+  - rewrite (nth_error_nth _ _ _ E). eapply F; eauto.
+  - apply nth_error_None in E. rewrite nth_overflow by exact E. constructor.
+Qed.
+
 Section InstFacts.
   Variable h : heap.
   Variable constructed : list nat.
@@ -101,15 +184,83 @@ Section InstFacts.
   Notation E := (node_edges false).
   Notation reach := (reach h E cut).
 
-  Lemma instantiate_inv root r :
+  Lemma replay_node n m :
+    replay (node_trace h false n) m =
+    (apply_sets n (fields (node_at h n)) m,
+     [PostInit n (map fst (mem_get (apply_sets n (fields (node_at h n)) m) n))]).
+  Proof. unfold node_trace. rewrite replay_app, replay_sets. reflexivity. Qed.
+
+  (* whatever the order of the two steps: one __post_init__ per configuration, in order, no execute *)
+  Lemma replay_nodes_shape pf ids : forall m,
+    posts (snd (replay (flat_map (node_trace h pf) ids) m)) = ids /\
+    execs (snd (replay (flat_map (node_trace h pf) ids) m)) = [].
+  Proof.
+    induction ids as [|n ids IH]; intros m; cbn [flat_map]; [simpl; auto|].
+    rewrite replay_app. cbn [fst snd]. rewrite posts_app, execs_app.
+    destruct (IH (fst (replay (node_trace h pf n) m))) as [P X]. rewrite P, X.
+    destruct pf.
+    - unfold node_trace. simpl. rewrite replay_sets. simpl. auto.
+    - rewrite replay_node. simpl. auto.
+  Qed.
+
+  (* the copy then __post_init__: every __post_init__ sees all the parameters of its own object set,
+     and every object ends up with the images of its parameters - derived by running the calls     *)
+  Lemma replay_nodes ids : forall m, NoDup ids -> (forall n, In n ids -> mem_get m n = []) ->
+    (forall n, NoDup (map fst (fields (node_at h n)))) ->
+    snd (replay (flat_map (node_trace h false) ids) m) = map (post_init_of h) ids /\
+    (forall n, In n ids -> mem_get (fst (replay (flat_map (node_trace h false) ids) m)) n = o_attrs (object_of h n)) /\
+    (forall n, ~ In n ids -> mem_get (fst (replay (flat_map (node_trace h false) ids) m)) n = mem_get m n).
+  Proof.
+    induction ids as [|n ids IH]; intros m N Z F; cbn [flat_map].
+    - simpl. split; auto. split; [intros n []|auto].
+    - inversion N as [|? ? Hn N']; subst. rewrite replay_app, replay_node. cbn [fst snd].
+      set (m1 := apply_sets n (fields (node_at h n)) m).
+      assert (Hm1 : mem_get m1 n = o_attrs (object_of h n)).
+      { unfold m1. rewrite apply_sets_same; auto.
+        - rewrite (Z n) by (left; auto). reflexivity.
+        - intros k _. rewrite (Z n) by (left; auto). simpl. auto. }
+      assert (Z1 : forall n', In n' ids -> mem_get m1 n' = []).
+      { intros n' Hin. unfold m1. rewrite apply_sets_other; [apply Z; right; auto|].
+        intros ->. contradiction. }
+      destruct (IH m1 N' Z1 F) as [L [A O]]. split; [|split].
+      + rewrite L, Hm1. unfold post_init_of, object_of. simpl. rewrite map_map. reflexivity.
+      + intros n' [<-|Hin]; [|apply A; auto]. rewrite O; auto.
+      + intros n' Hn'. rewrite O by (intros G; apply Hn'; right; auto).
+        unfold m1. apply apply_sets_other. intros ->. apply Hn'. left; auto.
+  Qed.
+
+  (* shape of the result for both orders of the two steps (no hypothesis on the names) *)
+  Lemma instantiate_gen_inv pf root r :
+    instantiate_gen h constructed pf root = Some r ->
+    exists evs, walk h E cut root = Some evs /\
+      map o_id (r_objects r) = map fst evs /\
+      r_log r = snd (replay (flat_map (node_trace h pf) (map fst evs)) []) ++ map Execute (gathered h evs) /\
+      r_objects r = map (fun ev => {| o_id := fst ev;
+                                      o_attrs := mem_get (fst (replay (flat_map (node_trace h pf) (map fst evs)) [])) (fst ev) |}) evs /\
+      r_root r = root.
+  Proof.
+    unfold instantiate_gen, inst_events. destruct (walk h E cut root) as [evs|]; [|discriminate].
+    unfold inst_trace. rewrite replay_app, replay_execs, flat_map_fst. simpl.
+    intros Er. inversion Er; subst; simpl. exists evs. rewrite map_map. simpl. auto.
+  Qed.
+
+  (* with distinct parameter names: the objects and the log of the specification vocabulary *)
+  Lemma instantiate_inv root r : fields_nodup h ->
     instantiate h constructed root = Some r ->
     exists evs, walk h E cut root = Some evs /\
       r_objects r = map (fun ev => object_of h (fst ev)) evs /\
       r_log r = map (fun ev => post_init_of h (fst ev)) evs ++ map Execute (gathered h evs) /\
       r_root r = root.
   Proof.
-    unfold instantiate, inst_events. destruct (walk h E cut root) as [evs|]; [|discriminate].
-    intros Er. inversion Er; subst; simpl. exists evs. auto.
+    intros F Er. destruct (instantiate_gen_inv _ _ _ Er) as [evs [Ew [_ [Hl [Ho Hr]]]]].
+    exists evs. split; auto.
+    destruct (walk_correct h E cut root) as [evs' [Ew' [Nd _]]].
+    rewrite Ew in Ew'. inversion Ew'; subst evs'.
+    destruct (replay_nodes (map fst evs) [] Nd (fun _ _ => eq_refl) (node_at_nodup h F)) as [L [A _]].
+    split; [|split; auto].
+    - rewrite Ho. apply map_ext_in. intros ev Hev. unfold object_of at 1.
+      rewrite (A (fst ev)) by (apply in_map; auto). reflexivity.
+    - rewrite Hl, L, map_map. reflexivity.
   Qed.
 
   Lemma created_ids evs : map o_id (map (fun ev : nat * list str => object_of h (fst ev)) evs) = map fst evs.
@@ -123,20 +274,23 @@ Section InstFacts.
       (forall n, In n (map o_id (r_objects r)) <-> reach root n).
   Proof.
     intros root. destruct (walk_correct h E cut root) as [evs [Ew [Nd [Hr _]]]].
-    unfold instantiate, inst_events. rewrite Ew. eexists. split; [reflexivity|]. simpl.
-    rewrite created_ids. auto.
+    destruct (instantiate_gen h constructed false root) as [r|] eqn:Er.
+    - exists r. split; auto. destruct (instantiate_gen_inv _ _ _ Er) as [evs' [Ew' [Hi _]]].
+      rewrite Ew in Ew'. inversion Ew'; subst evs'. rewrite Hi. auto.
+    - exfalso. unfold instantiate_gen, inst_events in Er. rewrite Ew in Er.
+      destruct (replay (inst_trace h false evs) []); discriminate.
   Qed.
 
   (* attribute k of the object of n is the image of the value of parameter k of n, and the
      objects it names were created by this call or constructed before: also through cycles *)
-  Theorem wired_like_graph : forall root r,
+  Theorem wired_like_graph : fields_nodup h -> forall root r,
     instantiate h constructed root = Some r ->
     (forall o, In o (r_objects r) ->
        o_attrs o = map (fun kv => (fst kv, image (snd kv))) (fields (node_at h (o_id o)))) /\
     (forall o k ov m, In o (r_objects r) -> In (k, ov) (o_attrs o) -> In m (orefs ov) -> m < length h ->
        In m (map o_id (r_objects r)) \/ In m constructed).
   Proof.
-    intros root r Er. destruct (instantiate_inv _ _ Er) as [evs [Ew [Ho [_ _]]]].
+    intros F root r Er. destruct (instantiate_inv _ _ F Er) as [evs [Ew [Ho [_ _]]]].
     destruct (walk_correct h E cut root) as [evs' [Ew' [Nd [Hr Hp]]]].
     rewrite Ew in Ew'. inversion Ew'; subst evs'. clear Ew'.
     rewrite Ho. split.
@@ -177,13 +331,13 @@ Section InstLog.
 
   (* the log of instance(): one __post_init__ per created object, called when all the
      parameters of that object (and only its own are claimed) are set; then the pre-tasks *)
-  Theorem post_init_once_after_fields : forall root r,
+  Theorem post_init_once_after_fields : fields_nodup h -> forall root r,
     instantiate h constructed root = Some r ->
     exists ids pres,
       r_log r = map (fun n => PostInit n (map fst (fields (node_at h n)))) ids ++ map Execute pres /\
       ids = map o_id (r_objects r) /\ NoDup ids /\ (forall n, In n ids <-> reach root n).
   Proof.
-    intros root r Er. destruct (instantiate_inv _ _ _ _ Er) as [evs [Ew [Ho [Hl _]]]].
+    intros F root r Er. destruct (instantiate_inv _ _ _ _ F Er) as [evs [Ew [Ho [Hl _]]]].
     destruct (walk_correct h E cut root) as [evs' [Ew' [Nd [Hr _]]]].
     rewrite Ew in Ew'. inversion Ew'; subst evs'.
     exists (map fst evs), (gathered h evs). rewrite Hl, Ho, created_ids, map_map.
@@ -199,22 +353,29 @@ Section InstLog.
     (* after every __post_init__ *)
     (exists k, posts (firstn k (r_log r)) = posts (r_log r) /\ execs (skipn k (r_log r)) = execs (r_log r)).
   Proof.
-    intros root r Er. destruct (instantiate_inv _ _ _ _ Er) as [evs [Ew [Ho [Hl _]]]].
+    intros root r Er. destruct (instantiate_gen_inv _ _ _ _ _ Er) as [evs [Ew [_ [Hl _]]]].
     destruct (walk_correct h E cut root) as [evs' [Ew' [Nd [Hr _]]]].
     rewrite Ew in Ew'. inversion Ew'; subst evs'.
-    rewrite Hl, execs_app, execs_Execute. unfold post_init_of. rewrite execs_PostInit. simpl.
+    destruct (replay_nodes_shape h false (map fst evs) []) as [P X].
+    set (L := snd (replay (flat_map (node_trace h false) (map fst evs)) [])) in *.
+    rewrite Hl, execs_app, execs_Execute, X. simpl.
     unfold gathered. destruct (dedup_nil_spec (flat_map (fun ev : nat * list str => pre (node_at h (fst ev))) evs)) as [N I].
     split; auto. split.
     - intros p. rewrite I, in_flat_map. split.
       + intros [[n pos] [Hev Hp]]. exists n. split; auto. apply Hr. apply in_map_iff. exists (n, pos); auto.
       + intros [n [Hn Hp]]. apply Hr in Hn. apply in_map_iff in Hn. destruct Hn as [[n' pos] [<- Hev]].
         exists (n', pos); auto.
-    - exists (length evs).
-      rewrite firstn_app, skipn_app, map_length, Nat.sub_diag. simpl.
-      rewrite firstn_all2 by (rewrite map_length; auto).
-      rewrite skipn_all2 by (rewrite map_length; auto). simpl.
+    - exists (length L).
+      rewrite firstn_app, skipn_app, Nat.sub_diag. simpl.
+      rewrite firstn_all, skipn_all. simpl.
       rewrite List.app_nil_r, posts_app, posts_Execute, List.app_nil_r, execs_Execute. auto.
   Qed.
+
+  (* the variant that calls __post_init__ before the copy is told apart by the statement above:
+     its __post_init__ sees no parameter                                                        *)
+  Lemma replay_node_post_first n m :
+    snd (replay (node_trace h true n) m) = [PostInit n (map fst (mem_get m n))].
+  Proof. unfold node_trace. simpl. rewrite replay_sets. reflexivity. Qed.
 End InstLog.
 
 (* ---- the parameter-file loader --------------------------------------------------- *)
@@ -542,18 +703,21 @@ Proof.
   - apply nth_error_None in En. rewrite !nth_overflow; auto. rewrite map_length. exact En.
 Qed.
 
+Lemma inst_trace_recls f h pf evs : inst_trace (map (recls f) h) pf evs = inst_trace h pf evs.
+Proof.
+  unfold inst_trace. f_equal.
+  - apply flat_map_ext. intros ev. unfold node_trace. rewrite (proj1 (node_at_recls f h (fst ev))). reflexivity.
+  - f_equal. unfold gathered. f_equal. apply flat_map_ext. intros ev.
+    apply (proj1 (proj2 (node_at_recls f h (fst ev)))).
+Qed.
+
 Theorem instantiate_class_blind : forall f h constructed root,
   instantiate (map (recls f) h) constructed root = instantiate h constructed root.
 Proof.
-  intros f h c root. unfold instantiate, inst_events.
+  intros f h c root. unfold instantiate, instantiate_gen, inst_events.
   rewrite (walk_map (recls f) (node_edges false) (cut_constructed c) h root) by reflexivity.
   destruct (walk h (node_edges false) (cut_constructed c) root) as [evs|]; auto.
-  f_equal. f_equal.
-  - apply map_ext. intros ev. unfold object_of. rewrite (proj1 (node_at_recls f h (fst ev))). reflexivity.
-  - f_equal.
-    + apply map_ext. intros ev. unfold post_init_of. rewrite (proj1 (node_at_recls f h (fst ev))). reflexivity.
-    + f_equal. unfold gathered. f_equal. apply flat_map_ext. intros ev.
-      apply (proj1 (proj2 (node_at_recls f h (fst ev)))).
+  rewrite inst_trace_recls. reflexivity.
 Qed.
 
 Theorem load_class_blind : forall f h root, load (map (recls f) h) root = load h root.
